@@ -11,7 +11,7 @@ THEOREMS = ["Pomerol.Properties.C06." + t for t in (
     "colour_collectives_match", "last_root_loses_table", "world_barrier_mismatch",
     "all_ranks_hold_all_parts", "wrong_map_spreads_stale_data", "root_table_equals_serial_table",
     "root_table_independent_of_map_and_size", "double_execution_counts_twice", "distributed_step_refines_serial",
-    "source_collective_pattern")]
+    "source_collective_pattern", "source_table_loop")]
 RULE = ("a case = random model + workflow script (spectrum, G, chi from terms and from returned tables, split and unsplit "
         "container computation) executed by the real library under mpiexec with np in {2,3,4} (thorough: up to 16, incl. counts "
         "not dividing the number of jobs/components) x OMP_NUM_THREADS in {1,4} with seeded per-job delays (hook) under a "
